@@ -80,6 +80,7 @@ pub fn clock_of(sc: &Value) -> Option<ClockModel> {
         read_step: u(c, "read_step", 0),
         precision_override: c.get("precision").and_then(|p| p.as_u64()).map(|p| p as u128),
         overheads: ov.unwrap_or([0; 4]),
+        quantum: u(c, "quantum", 0),
     })
 }
 
